@@ -228,8 +228,11 @@ def rule_stop_protocol(ctx, crate, g, rule="R-STOP-PROTOCOL"):
         ctx.check(ok, rule, "stop-before-join", dr.name, K.fn_loc(dr), "Ticker::drop signals stop before joining the thread",
                   "Ticker::drop joins the thread without (first) signalling stop: the join waits for the whole interval or forever", cfg)
     # (4) stop_and_replace_ticker: old ticker taken and stopped before the replacement is stored
-    sr = K.find_one(ctx, crate, rule, r"progress_bar::ProgressBar::stop_and_replace_ticker")
-    if sr:
+    #     (located by effect: every function that stores into the ticker slot — one helper today, its callers if it is inlined)
+    srs = [b for b in K.lib_bodies(crate) if b.kind != "Closure" and
+           [1 for i, j, s in b.assigns() if "*" in s["lhs"]["p"] and "progress_bar::Ticker" in s["lhs"].get("ty", "") and "Option" in s["lhs"].get("ty", "")]]
+    ctx.floor(rule, len(srs), 1, cfg, "functions that replace the ticker in its slot")
+    for sr in srs:
         takes = sr.calls(r"std::option::Option::<T>::take", r"std::mem::(take|replace)")
         stops = sr.calls(r"progress_bar::Ticker::stop")
         stores = [(i, s) for i, j, s in sr.assigns() if "*" in s["lhs"]["p"] and "progress_bar::Ticker" in s["lhs"].get("ty", "")]
